@@ -180,6 +180,10 @@ pub fn corpus(tier: Tier) -> Vec<(String, String)> {
         "pub fn main(a: [u8; 3], n: u8) -> u8 {\n  let mut acc = n;\n  for i in 0u8..3u8 {\n    acc = acc + i;\n  }\n  for x in a {\n    acc = acc ^ x;\n  }\n  for j in 0usize..2usize {\n    acc = acc + a[j];\n  }\n  for (k, v) in [(1u8, 2u8), (3u8, 4u8)] {\n    acc = acc ^ k ^ v;\n  }\n  acc\n}\n".into(),
     ));
     out.push((
+        "hand:single-variant-and-zero-sized".into(),
+        "enum Id { Id(u8) }\nenum Marker { Here }\nstruct Z {}\nfn unwrap(i: Id) -> u8 {\n  match i {\n    Id::Id(v) => v,\n  }\n}\npub fn main(i: Id, m: Marker, z: Z, u: [(); 2], k: usize) -> (u8, Marker, Z) {\n  let Id::Id(w) = i;\n  let mut units = u;\n  units[0] = ();\n  units[k] = ();\n  let mut n = 0u8;\n  for e in units {\n    n = n + 1u8;\n  }\n  let r = match m {\n    Marker::Here => unwrap(Id::Id(w)) ^ n,\n  };\n  (r, Marker::Here, Z {})\n}\n".into(),
+    ));
+    out.push((
         "hand:consts-literal".into(),
         "const A: usize = 2usize;\nconst B: usize = A + 1usize;\nconst C: usize = max(A, B) - 1usize;\nconst D: u8 = 3u8;\nconst E: u8 = min(D, 9u8) + D;\nconst F: bool = true;\nconst G: bool = F;\nconst H: i8 = -5i8;\nconst I: i8 = H - 1i8;\npub fn main(x: [u8; C], y: [i8; B]) -> (u8, i8, bool) {\n  let mut s = E;\n  for e in x {\n    s = s ^ e;\n  }\n  (s + D, y[A] + I, G ^ F)\n}\n".into(),
     ));
